@@ -93,7 +93,7 @@ class EventLoop:
 RUN_LOOP = 'BacktestTradingSession.run#for self.sim_engine#0'
 
 
-@harness('BacktestTradingSession.run', props=['C14', 'C07', 'C16', 'C08'], layer='L4',
+@harness('BacktestTradingSession.run', also=['C12'], props=['C14', 'C07', 'C16', 'C08'], layer='L4',
          functions=['BacktestTradingSession.run', 'BacktestTradingSession._is_rebalance_event', 'BacktestTradingSession._update_equity_curve'])
 def session_run(c):
     """per clock event: broker.update(event time) first and exactly once; signals.update iff a signals collection is given
@@ -185,7 +185,7 @@ def session_run(c):
         heap.LOOPSPEC.pop(RUN_LOOP, None)
     c.ob('allocations-collected-from-the-rebalances', isinstance(s.target_allocations, list) or hasattr(s.target_allocations, 'append'), kind='A')
     # the loop may only end when the clock is exhausted: an event left half-processed / skipped means the run stopped early
-    c.ob('every-clock-event-is-processed', not H.open_iteration, props=['C14', 'C08'])
+    c.ob('every-clock-event-is-processed', not H.open_iteration, props=['C14', 'C08', 'C12'])
 
 
 session_run.harness.conc = False
